@@ -7,8 +7,9 @@ specification: IpcHub/Spec/Packetise.lean (the sender's packetiser per RFC 6184 
 import IpcHub.Model.DepackInst
 import IpcHub.Spec.Packetise
 import IpcHub.Lemmas.DepackRound265
+import IpcHub.Lemmas.DepackLoss265
 namespace IpcHub.Props.C06
-open IpcHub.Depack IpcHub.Packetise IpcHub.DepackRound
+open IpcHub.Depack IpcHub.Packetise IpcHub.DepackRound IpcHub.DepackLoss
 
 /-- The source facts the theorems rest on, regenerated from /repo on every run: every guard
     (if / for / case condition) of the depacketizer functions in source order, the assignments
@@ -121,6 +122,63 @@ example :
       .frag 9000 true [0x65, 1, 2, 3, 4, 5, 6, 7] [2, 3], .single 12000 true [0x0a]]
     (∀ it ∈ items, legal264 it = true ∧ itemNoFiller it = true) ∧
     (vRun genCfg (fun _ => false) .h264 { ready := true, frags := [⟨7, 7, false, [0x5c, 0x05, 9]⟩] } (packets264 65534 items)).2.1.length = 5 := by
+  decide
+
+/-- C06, loss (H.264).  The sender packetises `items` (any decisions, as in the round trip; at
+    most 65536 packets, so that 16-bit sequence numbers identify packets) and ANY subset of the
+    packets is lost — single or multiple losses, inside or outside fragmented units, start, middle
+    or end fragments; the survivors `arr` arrive in order.  Then `arr` splits item by item
+    (`Lossy`) and the frames handed on are exactly the units of the items whose packets ALL
+    arrived (`survivors`), in the sender's order: a fragmented unit with any fragment missing is
+    dropped as a whole, no truncated or spliced unit is ever emitted, nothing is invented, and an
+    incomplete unit never damages a later one.  From every ready state with an empty fragment
+    buffer.
+    FULL STATEMENT: also for filler units and for reordered / duplicated arrivals.
+    `_partial`: filler data excluded as in the round trip; reordering and duplication are
+    exercised by the harness (judge `judgeSpans`, multiset bounds per unit) but not proved. -/
+theorem c06_loss_never_splices_h264_partial (spsOk : Bytes → Bool) (items : List Item) (st : VSt) (seq0 : UInt16)
+    (arr : List Pkt) (hr : st.ready = true) (hf : st.frags = [])
+    (hl : ∀ it ∈ items, legal264 it = true ∧ itemNoFiller it = true)
+    (hn : totalPkts payloads264 items ≤ 65536) (hsub : arr.Sublist (packets264 seq0 items)) :
+    ∃ arrs, Lossy payloads264 seq0 items arrs ∧ arr = arrs.flatten ∧
+      (vRun genCfg spsOk .h264 st arr).2 = ((survivors payloads264 seq0 items arrs).map (frameOf st.base), .ok) := by
+  obtain ⟨arrs, hlos, hfl⟩ := sublist_decompose payloads264 items seq0 arr hsub
+  obtain ⟨st', h, _⟩ := h264_loss genCfg c06_round_cfg (by decide) spsOk items seq0 st 65536 arrs hl hr
+    (Stale.of_nil hf _ _) hn (Nat.le_refl _) hlos
+  exact ⟨arrs, hlos, hfl, by rw [hfl, h]⟩
+
+/-- non-vacuity: unit A in 3 fragments with its middle fragment lost, unit B in 2 fragments
+    complete, a single unit lost entirely: exactly B is handed on -/
+example :
+    let items : List Item := [.frag 3000 true [0x41, 1, 2, 3, 4] [1, 1], .frag 6000 true [0x65, 5, 6, 7] [2], .single 9000 true [0x41, 9]]
+    let ps := packets264 65534 items
+    let arrs : List (List Pkt) := [[ps[0]!, ps[2]!], [ps[3]!, ps[4]!], []]
+    (∀ it ∈ items, legal264 it = true ∧ itemNoFiller it = true) ∧ totalPkts payloads264 items ≤ 65536 ∧
+    arrs.flatten.Sublist ps ∧
+    survivors payloads264 65534 items arrs = [(6000, [0x65, 5, 6, 7])] ∧
+    (vRun genCfg (fun _ => false) .h264 { ready := true } arrs.flatten).2.1 = [⟨false, 6000, 0, [0x65, 5, 6, 7]⟩] := by
+  decide
+
+/-- C06, loss (H.265): the same for FU fragmentation units and aggregation packets, every NAL
+    type 0…47.  `_partial` only because reordered / duplicated arrivals are not covered by the
+    theorem (they are by the harness). -/
+theorem c06_loss_never_splices_h265_partial (spsOk : Bytes → Bool) (items : List Item) (st : VSt) (seq0 : UInt16)
+    (arr : List Pkt) (hr : st.ready = true) (hf : st.frags = [])
+    (hl : ∀ it ∈ items, legal265 it = true)
+    (hn : totalPkts payloads265 items ≤ 65536) (hsub : arr.Sublist (packets265 seq0 items)) :
+    ∃ arrs, Lossy payloads265 seq0 items arrs ∧ arr = arrs.flatten ∧
+      (vRun genCfg spsOk .h265 st arr).2 = ((survivors payloads265 seq0 items arrs).map (frameOf st.base), .ok) := by
+  obtain ⟨arrs, hlos, hfl⟩ := sublist_decompose payloads265 items seq0 arr hsub
+  obtain ⟨st', h, _⟩ := h265_loss genCfg c06_round_cfg spsOk items seq0 st 65536 arrs hl hr
+    (Stale.of_nil hf _ _) hn (Nat.le_refl _) hlos
+  exact ⟨arrs, hlos, hfl, by rw [hfl, h]⟩
+
+example :
+    let items : List Item := [.frag 3000 true [0x02, 1, 2, 3, 4] [1, 1], .frag 6000 true [0x26, 1, 6, 7] [1]]
+    let ps := packets265 65535 items
+    let arrs : List (List Pkt) := [[ps[1]!, ps[2]!], [ps[3]!, ps[4]!]]
+    (∀ it ∈ items, legal265 it = true) ∧ arrs.flatten.Sublist ps ∧
+    (vRun genCfg (fun _ => false) .h265 { ready := true } arrs.flatten).2.1 = [⟨false, 6000, 0, [0x26, 1, 6, 7]⟩] := by
   decide
 
 /-- C06, H.265 (RFC 7798 single NAL unit / AP / FU, no DONL): as above, at full strength —
